@@ -352,6 +352,61 @@ func ruleBusyOnlyWhileJoining(c *Ctx, r *Rule) {
 			}
 		}
 		r.Ob(n >= 1, name+"|has-busy-returns", do.Pos(), "the action can hold or collapse")
+		// (3) the dual: while the flag is true the action holds an event of its own (taken with Hold,
+		// not yet given back), and only a busy result keeps the processor on the stream so that the
+		// time-out can flush it. A Pass / Discard result with the flag still true lets the processor
+		// leave: the held event is never propagated, committed or returned to the pool.
+		fi := c.info(do)
+		c.guards(do)
+		flagFalseEdge := func(b *ssa.BasicBlock, i int) bool {
+			for _, l := range unitLits(c.edgeFacts(fi, b, b.Succs[i])) {
+				if o, f, _, ok := loadedField(l.v); ok && o == owner && f == flag && !l.pol {
+					return false // this edge is taken only with the flag false
+				}
+			}
+			return true
+		}
+		m := 0
+		for _, b := range do.Blocks {
+			ret, ok := asReturn(b)
+			if !ok || len(ret.Results) != 1 {
+				continue
+			}
+			nonBusy := false
+			for _, leaf := range phiLeaves(ret.Results[0]) {
+				if k, isK := constInt(leaf); isK && busyVals[k] == "" {
+					nonBusy = true
+				}
+			}
+			if !nonBusy {
+				continue
+			}
+			m++
+			isRet := func(in ssa.Instruction) bool { return in == ssa.Instruction(ret) }
+			bad := false
+			var at ssa.Instruction
+			for _, bb := range do.Blocks {
+				known := false
+				for _, l := range unitLits(c.guards(do)[bb]) {
+					if o, f, _, ok := loadedField(l.v); ok && o == owner && f == flag && l.pol {
+						known = true
+					}
+				}
+				for _, in := range bb.Instrs {
+					if !(isSet(in) || (known && in == bb.Instrs[0])) || isClear(in) {
+						continue
+					}
+					if to, _ := c.pathExistsE(do, in, isRet, isClear, flagFalseEdge); to {
+						bad, at = true, in
+					}
+				}
+			}
+			msg := "a result that lets the processor leave the stream is returned only with the " + flag + " flag false"
+			if bad {
+				msg += ": reachable from " + c.pos(at.Pos()) + ", where the flag is true, without flushing — the event the action holds is then never propagated, committed or returned to the pool"
+			}
+			r.Ob(!bad, fmt.Sprintf("%s|nonbusy-return#%d|flag-false", name, m), ret.Pos(), msg)
+		}
 	}
 }
 
